@@ -61,7 +61,7 @@ def harness(sym):
 
 def _shards(tier):
     if tier == "quick":
-        return [{"n": 3, "cmds": [a]} for a in CMDS]
+        return [{"n": 4, "cmds": [a, b]} for a in CMDS for b in CMDS]
     return [{"n": 5, "cmds": [a, b]} for a in CMDS for b in CMDS]
 
 
@@ -73,7 +73,7 @@ OBLIGATIONS = [Obligation(
              "openpectus.engine.internal_commands_impl:PauseEngineCommand", "openpectus.engine.internal_commands_impl:HoldEngineCommand",
              "openpectus.engine.command_manager:CommandManager.execute_commands"],
     symbolic="tick increments: arbitrary strictly positive reals (<=10 s) per tick; control command before each tick: selector over none/Start/Stop/Pause/Unpause/Hold/Unhold/Restart",
-    bounds={"quick": "Start, 2 idle ticks, then 3 command slots each followed by a tick (6 ticks), one method with a block and a long Wait",
+    bounds={"quick": "Start, 2 idle ticks, then 4 command slots each followed by a tick (7 ticks), one method with a block and a long Wait",
             "thorough": "Start, 2 idle ticks, then 5 command slots (8 ticks)"},
     assumptions=["floats modelled as reals (CrossHair RealBasedSymbolicFloat); counterexamples are replayed with IEEE floats",
                  "zero increments excluded (separate boundary, forks every set_value on 'unchanged')",
